@@ -1,17 +1,23 @@
 #!/usr/bin/env bash
 # tools/try_seed.sh <patch.diff> [PROP ...]
-# Applies a seeded change to /repo, runs the quick checks (all claimed
-# properties, or the ones given), prints one line per check, and reverts.
+# Applies a seeded change to a scratch copy of /repo's working tree (same
+# effect as `git -C /repo apply` + revert, but /repo itself is never touched,
+# so concurrent analyses are not disturbed), runs the quick checks (all
+# claimed properties, or the ones given) with --root <scratch>, prints one
+# line per check, and removes the scratch copy.
 set -u
-patch="$1"; shift
+patch="$(readlink -f "$1")"; shift
 props="${*:-C01 C04 C05 C07 C08 C09 C10 C11 C12 C13 C14 C15 C16}"
 cd /verif
-if ! git -C /repo diff --quiet; then echo "refusing: /repo has local changes"; exit 3; fi
-git -C /repo apply "$patch" || { echo "patch does not apply"; exit 3; }
-trap 'git -C /repo checkout -- . ' EXIT
+sc=$(mktemp -d /tmp/try_seed.XXXXXX)
+trap 'rm -rf "$sc"' EXIT
+cp -r /repo/tel2puml "$sc/tel2puml"
+find "$sc" -name __pycache__ -type d -prune -exec rm -rf {} +
+for extra in end-to-end-pumls puml_files docs; do [ -e /repo/$extra ] && ln -s /repo/$extra "$sc/$extra"; done
+( cd "$sc" && patch -p1 -s --no-backup-if-mismatch < "$patch" ) || { echo "patch does not apply"; exit 3; }
 ev=$(mktemp -d)
 for p in $props; do
-  out=$(./check "$p" --tier quick --evidence-dir "$ev" 2>&1); rc=$?
+  out=$(./check "$p" --tier quick --root "$sc" --evidence-dir "$ev" 2>&1); rc=$?
   echo "$p rc=$rc $(echo "$out" | grep -E '^  VIOLATED|ANALYSIS-ERROR' | head -3 | cut -c1-220 | tr '\n' '|')"
 done
 rm -rf "$ev"
